@@ -42,11 +42,15 @@ type c02State struct {
 // its whole state with symbolic values.
 func c02Arbitrary() *c02State {
 	st := &c02State{}
-	maxBuckets, maxPass, rtCounts := 2, int64(2), 2
+	maxBuckets, maxPass, rtCounts := 2, int64(1), 2
 	if rt.Tier() > 0 {
 		maxBuckets, maxPass, rtCounts = 3, 8, 4
 	}
-	st.size = rt.Choose("buckets", maxBuckets) + 1
+	if rt.Tier() > 0 {
+		st.size = rt.Choose("buckets", maxBuckets) + 1
+	} else {
+		st.size = 2 // quick: two buckets (one visible under IgnoreCurrentBucket, both after a bucket boundary)
+	}
 	st.thr = rt.Int("cpuThreshold", 1, 999)
 	st.t0 = rt.Now()
 	sh := NewAdaptiveShedder(WithBuckets(st.size), WithWindow(time.Duration(st.size)*c02Interval), WithCpuThreshold(st.thr))
@@ -124,7 +128,7 @@ func (st *c02State) capacity() float64 {
 }
 
 //verif:entry tier=quick,thorough steps=400000 recycle=1 cover=shed,admitted,hot,overloaded,idle,cooledoff
-//verif:doc Allow from an arbitrary state: 1..2 buckets (quick) / 1..3 (thorough) of 100 ms with symbolic pass counts (0..2 quick / 0..8 thorough per bucket), latency sums (0..2^20) over 0..1 / 0..3 samples per bucket, flying in [0,2^20], avgFlying in [0,2^20], droppedRecently, overloadTime, cpu 0..1000, threshold 1..999, clock symbolic. Shed only if (cpu >= threshold or still hot) and flying > 10% of capacity; with nothing in flight never shed; in-flight accounting exact.
+//verif:doc Allow from an arbitrary state: 2 buckets (quick) / 1..3 (thorough) of 100 ms with symbolic pass counts (0..1 quick / 0..8 thorough per bucket), latency sums (0..2^20) over 0..1 / 0..3 samples per bucket, flying in [0,2^20], avgFlying in [0,2^20], droppedRecently, overloadTime, cpu 0..1000, threshold 1..999, clock symbolic. Shed only if (cpu >= threshold or still hot) and flying > 10% of capacity; with nothing in flight never shed; in-flight accounting exact.
 func Verif_C02_Allow() {
 	st := c02Arbitrary()
 	s := st.s
